@@ -19,12 +19,15 @@ ID = "C18"
 LEVEL = "exploration"
 RULE = ("(seq) Hypothesis histories of set / get / advance-clock / "
         "invalidate on a SessionCache with small id alphabets, maxEntries "
-        "2..6 and maxAge 10, compared after every step with a dictionary-"
+        "1..6 and maxAge 10, compared after every step with a dictionary-"
         "with-ages reference model; (conc) 2-3 threads x <= 3 operations on "
         "one SessionCache / VerifierDB / Python_RSAKey run under a "
-        "settrace-based scheduler with cooperative locks: the schedule "
+        "settrace-based scheduler with cooperative locks (every lock the "
+        "object creates, also lazily, is the scheduler's; RSA keys are "
+        "fresh per case): the schedule "
         "(list of switch decisions at line-level preemption points) is "
-        "generated, all schedules with <= 2 switches in the first 12 points "
+        "generated, all schedules with one switch anywhere or two switches "
+        "in the first 40 (thorough 80) points "
         "are enumerated for fixed 2x2 programs; results must be explainable "
         "by a sequential order of the operations (program order respected) "
         "and RSA results must equal the sequential answers; (stress) free-"
